@@ -368,6 +368,102 @@ class Ctx:
         except LookupError as e:
             self.skip(name, f'kernel not located: {e}')
 
+    # ---------------------------------------------------------- families in parallel worker processes
+    _LISTS = ('obs', 'violations', 'known', 'mismatches', 'not_encoded', 'assumptions', 'bounds', 'samples')
+
+    def run_families(self, fams, jobs=None):
+        """run obligation families, each in a forked worker (the MIR index and z3 context are inherited copy-on-write); results are merged in family order.
+        VERIF_JOBS=1 runs them in this process."""
+        fams = list(fams)
+        jobs = jobs or int(os.environ.get('VERIF_JOBS', '0') or 0) or min(12, max(1, (os.cpu_count() or 2) - 2))
+        if jobs <= 1 or len(fams) <= 1:
+            for name, fn in fams:
+                self.guarded(name, fn)
+            return
+        import pickle, tempfile, traceback
+        if not self.progs:
+            self.prog('symcc' if self.pid == 'C18' else 'core')      # index the dump once, before forking
+        tmpd = tempfile.mkdtemp(prefix='fam-', dir=BUILD)
+        pending = list(enumerate(fams))
+        running, done = {}, {}
+        sys.stdout.flush()
+        while pending or running:
+            while pending and len(running) < jobs:
+                idx, (name, fn) = pending.pop(0)
+                out = os.path.join(tmpd, f'{idx}.pkl')
+                pid = os.fork()
+                if pid == 0:
+                    code = 0
+                    try:
+                        base = {k: len(getattr(self, k)) for k in self._LISTS}
+                        base_fn, base_st, base_md = dict(self.functions), set(self.stubs), set(self.models)
+                        self.native.proc, self.native.calls = None, 0
+                        self.solvers.queries = 0
+                        self.solvers.time = {k: 0.0 for k in self.solvers.time}
+                        self.solvers.answers = {k: {} for k in self.solvers.answers}
+                        w0, x0, v0 = self.witnesses, dict(self.extra), self.validation_samples
+                        self.guarded(name, fn)
+                        try:
+                            self.native.close()
+                        except Exception:
+                            pass
+                        delta = {k: getattr(self, k)[base[k]:] for k in self._LISTS}
+                        delta.update(functions={k: v for k, v in self.functions.items() if k not in base_fn}, stubs=self.stubs - base_st, models=self.models - base_md,
+                                     witnesses=self.witnesses - w0, validation_samples=self.validation_samples - v0,
+                                     extra={k: (v - x0.get(k, 0) if isinstance(v, (int, float)) else v) for k, v in self.extra.items()},
+                                     solvers=(self.solvers.queries, self.solvers.time, self.solvers.answers), native_calls=self.native.calls,
+                                     replays_seen=getattr(self, '_replays_seen', {}))
+                        pickle.dump(delta, open(out, 'wb'))
+                    except BaseException:
+                        try:
+                            pickle.dump({'crash': traceback.format_exc()}, open(out, 'wb'))
+                        except Exception:
+                            code = 3
+                    finally:
+                        sys.stdout.flush()
+                        os._exit(code)
+                running[pid] = (idx, name, out)
+            pid, status = os.wait()
+            if pid in running:
+                idx, name, out = running.pop(pid)
+                try:
+                    done[idx] = (name, pickle.load(open(out, 'rb')))
+                except Exception as e:
+                    done[idx] = (name, {'crash': f'worker died (status {status}): {e}'})
+        for idx in sorted(done):
+            name, d = done[idx]
+            if 'crash' in d:
+                self.log(f'MACHINERY-ERROR family {name}: {d["crash"][-1500:]}')
+                self.mismatches.append((name, 'worker crashed'))
+                continue
+            for k in self._LISTS:
+                for x in d[k]:
+                    if k in ('assumptions', 'bounds') and x in getattr(self, k):
+                        continue
+                    getattr(self, k).append(x)
+            self.functions.update(d['functions'])
+            self.stubs |= d['stubs']
+            self.models |= d['models']
+            self.witnesses += d['witnesses']
+            self.validation_samples += d['validation_samples']
+            for k, v in d['extra'].items():
+                self.extra[k] = (self.extra.get(k, 0) + v) if isinstance(v, (int, float)) else v
+            q, tm, an = d['solvers']
+            self.solvers.queries += q
+            for k, v in tm.items():
+                self.solvers.time[k] = self.solvers.time.get(k, 0.0) + v
+            for k, v in an.items():
+                for a, n in v.items():
+                    self.solvers.answers.setdefault(k, {})
+                    self.solvers.answers[k][a] = self.solvers.answers[k].get(a, 0) + n
+            self.native.calls += d['native_calls']
+            if d.get('replays_seen'):
+                if not hasattr(self, '_replays_seen'):
+                    self._replays_seen = {}
+                self._replays_seen.update(d['replays_seen'])
+        import shutil
+        shutil.rmtree(tmpd, ignore_errors=True)
+
     # ---------------------------------------------------------- violations
     def violation(self, obligation, role, text, replay):
         """a counterexample that reproduced natively.  role = stable key used by known_findings.json"""
